@@ -293,6 +293,11 @@ func blankPatterns() []string {
 			}
 		}
 	}
+	// characters that mean something to the machinery a pattern or its example may be passed through
+	// (format verbs, JSON, the schema language, shells): each alone, doubled, and inside a word
+	for _, ch := range []string{"%", "%s", "%d", "%v", "%%", "%!", "#", "##", "//", "/\\*", "@", "@a", "\\$", "\\{", "\\}", "\\[x\\]", ":", ",", "'", "`", "&", "<", ">", "~", "=", ";", "!", "\\\\", "\\\\n"} {
+		out = append(out, ch, "a"+ch+"b", ch+ch, `\d{1,3}`+ch, "["+ch[:1]+"]done")
+	}
 	return out
 }
 
